@@ -87,8 +87,8 @@ func (b *recBatch) Put(k, v []byte) error {
 	return nil
 }
 func (b *recBatch) Delete(k []byte) error { panic("not supported") }
-func (b *recBatch) ValueSize() int { return b.size }
-func (b *recBatch) Reset()         { b.kvs, b.size = nil, 0 }
+func (b *recBatch) ValueSize() int        { return b.size }
+func (b *recBatch) Reset()                { b.kvs, b.size = nil, 0 }
 func (b *recBatch) Write() error {
 	b.db.nWrites++
 	if b.db.nWrites == b.db.failAt {
